@@ -193,7 +193,10 @@ def run(ctx):
              "nil_advisory": sum(1 for c in cases if any(r["adv"] is None for x in c["dets"] for r in x["results"])),
              "nil_advisory_id": sum(1 for c in cases if any(r["adv"] is not None and r["adv"]["id"] is None for x in c["dets"] for r in x["results"])),
              "same_detector_twice": sum(1 for c in cases if len({x["name"] for x in c["dets"]}) < len(c["dets"]))}
+    muts = sorted({r["adv"].get("mut") for c in cases if c["stream"] == "single-field-difference"
+                   for x in c["dets"] for r in x["results"] if r["adv"] and r["adv"].get("mut")})
     ctx.coverage.update({
+        "single_field_mutations": muts,
         "evaluations": len(cases),
         "distinct_nontrivial": len(seen),
         "rule": "a case = inventory (filesystem + standalone packages, with/without purl) + 0..4 fake detectors, run through "
@@ -213,7 +216,10 @@ def run(ctx):
                        "splits; every assignment of <= %s findings in total (alphabet: nil advisory, advisory without ID, 2 IDs x 2 "
                        "bodies) to <= 3 detectors x every error-flag vector; plus seeded random cases (0..4 detectors, <= 4 "
                        "findings each, severity/CVSS pointer variants, duplicate detector names, cancellation) and a stream with "
-                       "*Finding pointers shared between detectors" % (("4", "3") if ctx.tier == "thorough" else ("3", "2")),
+                       "*Finding pointers shared between detectors; single-field-difference stream: for every leaf field of "
+                       "detector.Advisory found by reflection (nested structs/pointers/slices; nil for every pointer) pairs of "
+                       "findings with one advisory ID whose advisories differ in exactly that leaf, equality decided by the "
+                       "harness's own structural serialisation" % (("4", "3") if ctx.tier == "thorough" else ("3", "2")),
     })
     ctx.coverage["trusted_base"] = vlib.std_trusted_base(pa, [
         "Go harness harness/cmd/detect (fake filesystem/standalone extractors with ToPURL from package metadata, fake "
